@@ -1349,6 +1349,7 @@ class Arith:
         self.newtypes = numeric_newtypes(F)
         self.symbols = symbols or {}
         self.opaque = {}
+        self.items_numeric = True
 
     def sym(self, t):
         key = nosite(t)
@@ -1365,6 +1366,16 @@ class Arith:
         if key in self.symbols:
             return Ratio(Poly.sym(self.symbols[key]))
         h = t[0]
+        if h == "item":
+            c = self.F.consts.get(t[1])
+            if c is not None and "as_f64" in c and self.items_numeric:
+                try:
+                    fr = float_fraction(c["as_f64"])
+                except Exception:
+                    fr = None
+                if fr is not None:
+                    return Ratio(Poly.const(fr))
+            return self.sym(t)
         if h == "const":
             v = t[2]
             if isinstance(v, bool):
@@ -1818,3 +1829,26 @@ def error_flow(F, body, cs, tm=None):
             steps.append(kind)
         cur_cs = c2
     return {"ok": False, "detail": "adaptor chain too long"}
+
+
+def rewrite(t, fn):
+    """bottom-up rewriting of a term: fn(term) returns a replacement or None"""
+    if not isinstance(t, tuple) or not t:
+        return t
+    r = fn(t)
+    if r is not None:
+        return r
+    h = t[0]
+    if h == "phi":
+        return mk_phi([rewrite(x, fn) for x in t[1]])
+    if h == "agg":
+        return ("agg", t[1], t[2], tuple((n, rewrite(v, fn)) for n, v in t[3]))
+    out = []
+    for x in t:
+        if isinstance(x, tuple) and x and isinstance(x[0], str):
+            out.append(rewrite(x, fn))
+        elif isinstance(x, tuple):
+            out.append(tuple(rewrite(y, fn) if isinstance(y, tuple) else y for y in x))
+        else:
+            out.append(x)
+    return tuple(out)
